@@ -50,7 +50,8 @@ def apply_odata_query(query: ClauseElement, odata_query: str) -> ClauseElement:
             str(required_join) not in existing_joins
             and str(required_join.key) not in existing_joins
         ):
-            query = query.join(required_join)
+            # A missing related row behaves as null, it must not drop the parent:
+            query = query.join(required_join, isouter=True)
 
     return query.filter(where_clause)
 
